@@ -63,7 +63,8 @@ class Unit:
                 j = i + 1
                 name = None
                 while j < len(lines) and j < i + 25:
-                    fm = re.match(r'^\s*(?:pub\s+)?fn\s+([A-Za-z0-9_]+)\s*\(', lines[j])
+                    fm = re.match(r'^\s*(?:pub\s+)?fn\s+([A-Za-z0-9_]+)\s*\(', lines[j]) or \
+                        re.match(r'^\s*[a-z_0-9]+!\(\s*([A-Za-z0-9_]+)\s*,', lines[j])
                     if fm:
                         name = fm.group(1)
                         break
@@ -291,6 +292,7 @@ def playback_test(repo, h, scratch):
     except subprocess.TimeoutExpired as e:
         return None, 'playback generation timed out'
     tests = re.findall(r'```\n(.*?)```', out, re.S)
+    tests = [t[t.index('#[test]'):] for t in tests if '#[test]' in t]   # drop the doc-comment header (may contain raw newlines)
     tail = '\n'.join(l for l in out.split('\n') if not l.startswith('warning') and '-->' not in l)[-6000:]
     return (tests, tail)
 
@@ -438,7 +440,7 @@ def main(argv):
                     continue
                 checks = r['checks']
                 failed = [c for c in checks if c['status'] in ('Failure', 'Failed')]
-                own = [c for c in checks if c['category'] == 'assertion' and c['location'].get('file', '').endswith(os.path.basename(h.unit.path))]
+                own = [c for c in checks if c['category'] == 'assertion' and os.path.basename(c['location'].get('file', '')) == os.path.basename(h.unit.path) and 'harness' in c['location'].get('file', '')]
                 unreachable_own = [c for c in own if c['status'] == 'Unreachable']
                 covers = [c for c in checks if c['category'] == 'cover']
                 bad_covers = [c for c in covers if c['status'] != 'Satisfied']
@@ -485,17 +487,20 @@ def main(argv):
                 elif undet:
                     status = 'undecided'
                     undecided.append((h.id, 'undetermined checks'))
-                elif unreachable_own or bad_covers:
+                elif bad_covers or (own and len(unreachable_own) == len(own)):
                     status = 'undecided'
-                    undecided.append((h.id, 'VACUOUS: unreachable own assertion or unsatisfied cover: ' +
-                                      '; '.join(strip_desc(c['description']) for c in (unreachable_own + bad_covers)[:3])))
+                    undecided.append((h.id, 'VACUOUS: unsatisfied cover or every own assertion unreachable: ' +
+                                      '; '.join(strip_desc(c['description']) for c in (bad_covers + unreachable_own)[:3])))
                 elif len(checks) == 0:
                     status = 'undecided'
                     undecided.append((h.id, 'VACUOUS: zero checks generated'))
                 else:
                     status = 'discharged'
                 rec['status'] = status
+                rec['own_unreachable'] = len(unreachable_own)
                 records.append(rec)
+                if os.environ.get('VERIF_VERBOSE'):
+                    log(f'  {status:13s} {h.id:40s} checks={len(checks)} own={len(own)}(-{len(unreachable_own)} unreachable) covers={len(covers)} t={rec["cbmc_s"]}s')
             # ---------------- replay for violations found by Kani
             for v in [v for v in violations if v.get('engine') == 'kani']:
                 h = next(h for h in hs if h.id == v['id'])
